@@ -15,7 +15,7 @@ bounded stand-in.
 import ast
 import importlib
 import os
-from vf.engine import obligation
+from vf.engine import obligation, REGISTRY
 from vf.spec import enc as E
 from vf.bits import Seq
 from harness.common import (mk_builder, mk_slice, bits_of, call, Child, is_error, same_objects, abstract_cell, abstract_child)
@@ -530,9 +530,21 @@ def histories(w):
         for (c, h, bits, refs, boc) in list(rec.values()):
             ok = c.hash == h and c.bits.to01() == bits and [id(r) for r in c.refs] == refs
             if ok and len(rec) <= 12:
-                ok = c.to_boc() == boc
+                now = c.to_boc()
+                ok = now == boc
+                if ok:      # and the serialisation denotes the cell (an independent look at it: the parser), whatever was serialised before
+                    try:
+                        ok = Cell.one_from_boc(now).hash == h
+                    except Exception:
+                        ok = False
             if not ok:
                 w.used['history'] = log
                 w.claim(f'a cell changed after step {step} ({op}) of history {log}', False)
                 return
     w.claim('all cells unchanged throughout the history', True)
+
+
+import harness.C04 as _C04
+_so = REGISTRY['C04.shared_object']
+obligation('C08.to_boc_history', 'C08', cases=_so.cases, fuc=_so.fuc, assumes=_so.assumes,
+           descr='[no state carried between calls] ' + _so.descr)(_so.fn)
